@@ -43,7 +43,10 @@ def run(ctx):
     def setgv(i):
         with warnings.catch_warnings():
             warnings.simplefilter("ignore")
-            gv(sps=[16, 8, 4][i % 3], R=[1e9, 10e9, 2.5e9][i % 3])
+            if i % 4 == 3:
+                gv(R=4e9, fs=10e9)              # fs/R not an integer: the devices must use fs itself
+            else:
+                gv(sps=[16, 8, 4][i % 3], R=[1e9, 10e9, 2.5e9][i % 3])
 
     SEL = ["ase-only", "thermal-only", "shot-only", "ase-thermal", "ase-shot", "thermal-shot", "all"]
     for it in range(700 if T else 49):
